@@ -699,9 +699,23 @@ async fn write_cut(
     other: Option<&mut quinn::SendStream>,
 ) -> Result<(), String> {
     let mut first = prefix.to_vec();
-    if cut == 0 || cut >= target.len() {
+    if cut == 0 || cut > target.len() {
         first.extend_from_slice(target);
         return raw_write(s, first).await;
+    }
+    if cut == target.len() {
+        // the whole element, then the event at once and again every few milliseconds: whatever
+        // the reader still does after it has consumed the element happens among other events
+        first.extend_from_slice(target);
+        raw_write(s, first).await?;
+        let mut other = other;
+        for _ in 0..8 {
+            // the connection may already be gone (a close capsule was the element)
+            let _ = inject(conn, keep, event, other.as_deref_mut()).await;
+            tokio::time::sleep(ms(3)).await;
+        }
+        tokio::time::sleep(ms(CUT_GAP_MS)).await;
+        return Ok(());
     }
     first.extend_from_slice(&target[..cut]);
     raw_write(s, first).await?;
@@ -1949,8 +1963,14 @@ fn gen_c05(thorough: bool, _rng: &mut Rng, emit: &mut dyn FnMut(&str, Vec<String
                 c.retain(|x| *x > 0 && *x < len);
                 c
             };
+            let mut cuts = cuts;
+            // the whole element with the events right behind it
+            cuts.push(len);
             for cut in cuts {
                 for event in events {
+                    if cut == len && event == "none" {
+                        continue;
+                    }
                     // `ctrlframe` needs the other critical stream to exist
                     if event == "ctrlframe"
                         && (target == "settings" || (target == "grease_ctrl" && *side == "server"))
